@@ -391,7 +391,7 @@ def coq_crosscheck(chk, cases, model_out):
 
     def opt(o):
         if o[0] == "N":
-            return "WNew (%s)" % o[1:]
+            return "WhNew (%s)" % o[1:]
         if o[0] == "A":
             return "WAfter (%s)" % o[1:]
         return "WReset None" if o == "R" else "WReset (Some (%s))" % o[1:]
